@@ -48,7 +48,8 @@ def apply_cmd(rows, desc):
         return sorted(rows + [int(x) for x in p[2].split("+") if x])
     if p[0] == "del":
         op, c = p[2], int(p[3])
-        keep = {"lt": lambda v: not v < c, "eq": lambda v: v != c, "ge": lambda v: not v >= c, "all": lambda v: False}[op]
+        keep = {"lt": lambda v: not v < c, "eq": lambda v: v != c, "ge": lambda v: not v >= c, "all": lambda v: False,
+                "bt": lambda v: not (c <= v <= c + 2)}[op]
         return [v for v in rows if keep(v)]
     return rows
 
@@ -184,6 +185,10 @@ EXHAUSTIVE_TEMPLATES = [
     # compaction against an INSERT
     "(case e3 (gate cmd.begin txn.lock.begin txn.pinned vm.commit.begin vm.committed cp.pass.begin cp.locked)"
     " (setup create:t1 ins:t1:1+2 ins:t1:3) (actors (compact) (ins:t1:7)) (sched ) (rng 0) (sticky 0) (script ))",
+    # a table WITH a primary key, three interleaved row-sets merged by one compaction pass, against a
+    # key-predicate DELETE and a key-predicate SELECT
+    "(case e4 (gate cmd.begin txn.lock.begin vm.commit.begin vm.committed cp.pass.begin cp.locked)"
+    " (setup create:t51 ins:t51:1+4+7 ins:t51:2+5+8 ins:t51:3+6+9) (actors (compact) (del:t51:eq:5 seleq:t51:8 selo:t51)) (sched ) (rng 0) (sticky 0) (script ))",
 ]
 
 
